@@ -21,6 +21,7 @@ VX(vid)   == Val("x", vid, <<>>)                   \* an exception, identified b
 VC(c)     == Val("c", c, <<>>)
 VIv(f)    == Val("iv", f, <<>>)
 IsX(v)    == v.g = "x"
+IsBaseX(v) == v.g = "x" /\ v.n >= 11000 /\ v.n < 12000      \* derives from BaseException only: `except Exception` lets it pass
 
 IsContainer(s) == s.g \in {"Tup", "Lst", "Dct"}
 LowerTag(g) == IF g = "Tup" THEN "tup" ELSE IF g = "Lst" THEN "lst" ELSE "dct"
@@ -145,11 +146,12 @@ TaskOut(P, t) ==            \* the value task t returns, or VX(id) of the except
         IN IF ~o.ok THEN o.x
            ELSE CASE seg.term.k = "yield" ->
                        LET r == SOut(P, t, k, seg.term.s, 0).v IN
-                       IF IsX(r) THEN (IF seg.term.catch THEN Go(k + 1, Append(o.rs, Val("caught", r.n, <<>>))) ELSE r)
+                       IF IsX(r) THEN (IF seg.term.catch /\ ~IsBaseX(r) THEN Go(k + 1, Append(o.rs, Val("caught", r.n, <<>>))) ELSE r)
                        ELSE Go(k + 1, Append(o.rs, r))
                   [] seg.term.k \in {"return", "result"} ->
                        IF seg.term.k = "return" /\ seg.term.ret # 0 THEN Val("fut", seg.term.ret, <<>>) ELSE Val("r", t, o.rs)
                   [] seg.term.k = "raise" -> VX(10000 + t * 100 + k)
+                  [] seg.term.k = "raiseb" -> VX(11000 + t * 100 + k)
   IN Go(1, <<>>)
 
 (* ---------------- static predicates on programs ---------------------------------------------- *)
@@ -166,6 +168,7 @@ NoThrowKind(P) == \A k \in 1..Len(P.kinds) : P.kinds[k].flush # "throw"
 \* an exception raised by BatchBase.flush() itself (31000 + kind)
 IsEscape(v) == IsX(v) /\ (v.n = 80000 \/ (v.n >= 31000 /\ v.n < 32000))
 NoStackLimit(P) == "maxstack" \notin DOMAIN P
+NoBaseRaise(P) == \A t \in 1..Len(P.tasks) : \A k \in 1..Len(P.tasks[t].segs) : P.tasks[t].segs[k].term.k # "raiseb"
 HasDedup(P, t) == "dedup" \in DOMAIN P.tasks[t]
 NoDedup(P) == \A t \in 1..Len(P.tasks) : ~HasDedup(P, t)
 \* (function, normalised arguments, binding: plain function / method of instance 1 or 2 / static method); one thread
@@ -201,7 +204,7 @@ Fin(P, t, s) ==
                       nxt == CHOOSE m \in times : \A x \in times : x <= m
                       \* an uncaught failure ends the task at this yield (after all siblings finished)
                       r == SOut(P, t, k, seg.term.s, 0).v
-                  IN IF IsX(r) /\ ~seg.term.catch THEN nxt ELSE Go(k + 1, nxt)
+                  IN IF IsX(r) /\ ~(seg.term.catch /\ ~IsBaseX(r)) THEN nxt ELSE Go(k + 1, nxt)
   IN Go(1, s)
 CriticalPath(P, root) == Fin(P, root, 0)
 =============================================================================
